@@ -156,3 +156,8 @@ Qed.
 Theorem sizes_frozen p s :
   frozen_to p s -> space_n_samples s = space_n_samples p /\ space_n_treatments s = space_n_treatments p.
 Proof. intros (Ht & Hs & _). unfold space_n_samples, space_n_treatments. now rewrite Ht, Hs. Qed.
+
+Theorem sizes_never_shrink p sel test ops s :
+  lifecycle (carry_mappings true) p sel test ops = Ok s ->
+  space_n_samples s = space_n_samples p /\ space_n_treatments s = space_n_treatments p.
+Proof. intros H. exact (sizes_frozen p s (ids_frozen p sel test ops s H)). Qed.
